@@ -45,7 +45,7 @@ META = {
 OPTIONS = {  # name: [base, alternatives...]
     "a": [1.0, 3.0, 0.0], "b": [1.0, 2.0, 0.0], "e": [1.0, 0.5], "p": [0.3, 0.15], "n": [3, 5],
     "d": ["absolute", "numerical", "levenshtein"], "m": [False, True], "c": [False, True], "k": [False, True],
-    "seed": [7, 0], "s": [",", ";"], "out": ["stdout", "csv", "json"], "fmt": ["csv", "rttm"], "files": [1, 2, "2r", 3, "dir", "2dirs", "dir+file"],
+    "seed": [7, 0], "s": [",", ";"], "out": ["stdout", "csv", "json"], "fmt": ["csv", "rttm"], "files": [1, 2, "2r", 3, "dir", "2dirs", "dir+file", "missing_first", "missing_mid"],
 }
 ROWS = {
     "f1": [("a", "1", 0, 3), ("a", "2", 5, 8), ("a", "10", 10, 12), ("b", "1", 0.5, 3), ("b", "10", 5, 8.5),
@@ -56,7 +56,9 @@ ROWS = {
     "f3": [("p", "30", 0, 2), ("p", "1", 4, 6), ("q", "10", 0.25, 2), ("q", "2", 4, 7), ("q", "30", 8, 9)],
 }
 FILESETS = {1: ["f1"], 2: ["f1", "f2"], "2r": ["f2", "f1"], 3: ["f3", "f1", "f2"],
-            "dir": [["f1", "f2"]], "2dirs": [["f1"], ["f3", "f2"]], "dir+file": [["f2"], "f1"]}  # lists = folders
+            "dir": [["f1", "f2"]], "2dirs": [["f1"], ["f3", "f2"]], "dir+file": [["f2"], "f1"],
+            # an argument naming no existing file is reported and skipped: the other files keep their own results
+            "missing_first": ["MISSING", "f2", "f1"], "missing_mid": ["f3", "MISSING", "f1"]}  # lists = folders
 
 
 def base_point():
@@ -122,6 +124,8 @@ def write_inputs(d, cfg):
             for name in item:
                 files.append(write_one(sub, name, cfg))
             args.append(sub)
+        elif item == "MISSING":
+            args.append(os.path.join(d, "no_such_file.csv"))
         else:
             p = write_one(d, item, cfg)
             args.append(p)
@@ -295,7 +299,7 @@ def run_config(pa, cfg):
             for a in args:
                 if os.path.isdir(a):
                     expected += [p for p in reported if os.path.dirname(p) == a]
-                else:
+                elif os.path.exists(a):
                     expected.append(a)
             if [str(p) for p in reported] != [str(p) for p in expected]:
                 order_problem = (f"input files processed in the order {[os.path.basename(p) for p in reported]}, given as "
